@@ -453,6 +453,19 @@ func bCheckNodeDiff(t *testing.T, desc string, st *bStore, oldR, newR *Root, old
 	if distinct > 2*d+2 {
 		bViolation(t, "C15", "difflinks-cost", "%s\nDiffLinks read %d distinct nodes, D=%d nodes differ (bound 2*D+2=%d)", ctx, distinct, d, 2*d+2)
 	}
+	// the same bound for the diff cursor
+	oldT3, _ := oldR.LoadMast(bctx, bCfg(st, nil))
+	newT3, _ := newR.LoadMast(bctx, bCfg(st, nil))
+	st.reset()
+	if _, err := bDiffCursor(newT3, oldT3); err == nil {
+		dl := st.distinctLoads()
+		if same && dl != 0 {
+			bViolation(t, "C15", "same-version-reads", "%s\nthe diff cursor (StartDiff/NextEntry) of a version against itself read %d nodes", ctx, dl)
+		}
+		if dl > 2*d+2 {
+			bViolation(t, "C15", "diffcursor-cost", "%s\nthe diff cursor read %d distinct nodes, D=%d nodes differ (bound 2*D+2=%d)", ctx, dl, d, 2*d+2)
+		}
+	}
 	// the same bound for the entry diff
 	oldT2, _ := oldR.LoadMast(bctx, bCfg(st, nil))
 	newT2, _ := newR.LoadMast(bctx, bCfg(st, nil))
